@@ -295,6 +295,16 @@ func (m *TCPMuxDefault) handleConn(conn net.Conn) { //nolint:cyclop
 	}
 	m.mu.Lock()
 
+	// The mux may have been closed while this connection was waiting for its
+	// first message: a closed mux hands out nothing and attaches nothing.
+	if m.closed {
+		m.mu.Unlock()
+		m.closeAndLogError(conn)
+		m.params.Logger.Debugf("Mux is closed, dropping connection from %s to %s", conn.RemoteAddr(), conn.LocalAddr())
+
+		return
+	}
+
 	packetConn, ok := m.getConn(ufrag, isIPv6, localAddr.IP)
 	if !ok {
 		packetConn, err = m.createConn(ufrag, isIPv6, localAddr.IP, true)
